@@ -11,6 +11,8 @@ import (
 	"github.com/modernizing/coca/pkg/adapter/cocafile"
 	"github.com/modernizing/coca/pkg/application/analysis"
 	"github.com/modernizing/coca/pkg/application/analysis/goapp"
+	"github.com/modernizing/coca/pkg/application/analysis/pyapp"
+	"github.com/modernizing/coca/pkg/domain/core_domain"
 	"verif/engine"
 )
 
@@ -116,22 +118,40 @@ func c20DirGen(c *engine.C) engine.Case {
 	if c.Bool("b-before-a") {
 		files[0].Name, files[1].Name = "z.go", "b.go"
 	}
+	driver := c.Bool("through-the-golang-analysis-driver")
+	if driver {
+		c.Tag("cli")
+	}
 	return func() engine.Result {
 		var specs []FileSpec
 		var desc []string
 		for _, f := range files {
 			specs = append(specs, FileSpec{Path: filepath.Join(f.Dir, f.Name), Content: f.source()})
 		}
-		res := engine.Result{InputKey: filesKey(specs), Input: filesInput(specs), Nontrivial: true}
+		res := engine.Result{InputKey: filesKey(specs) + fmt.Sprint(driver), Input: map[string]interface{}{"files": filesInput(specs), "through_driver": driver}, Nontrivial: true}
 		root, cleanup := materialise(specs)
 		defer cleanup()
 		// CommonAnalysis writes coca_reporter/members.json into the working directory
-		wd, _ := os.Getwd()
-		if err := os.Chdir(root); err != nil {
-			panic(err)
+		var ds []core_domain.CodeDataStruct
+		if driver {
+			// analysis/golang: `analysis -p .` writes coca_reporter/godeps.json
+			r := runCLIOf("golang", root, "analysis", "-p", ".")
+			if r.Exit != 0 {
+				res.Violations = append(res.Violations, engine.V("go-directory", "driver-exit-status", "golang analysis -p . exited %d: %s", r.Exit, trimTo(r.Stderr+r.Stdout, 500)))
+				return res
+			}
+			if err := readReport(root, "godeps.json", &ds); err != nil {
+				res.Violations = append(res.Violations, engine.V("go-directory", "driver-report", "godeps.json: %v", err))
+				return res
+			}
+		} else {
+			wd, _ := os.Getwd()
+			if err := os.Chdir(root); err != nil {
+				panic(err)
+			}
+			ds = analysis.CommonAnalysis(io.Discard, root, new(goapp.GoIdentApp), cocafile.GoFileFilter, true)
+			os.Chdir(wd)
 		}
-		ds := analysis.CommonAnalysis(io.Discard, root, new(goapp.GoIdentApp), cocafile.GoFileFilter, true)
-		os.Chdir(wd)
 		typeNames := map[string]bool{}
 		var want []string
 		freeWant := map[string]string{}
@@ -183,6 +203,140 @@ func c20DirGen(c *engine.C) engine.Case {
 		for fn, pkg := range freeWant {
 			if len(freeGot[fn]) != 1 || freeGot[fn][0] != pkg {
 				res.Violations = append(res.Violations, engine.V("go-directory", "function-entries", "exported function %s of package %s is listed under %v", fn, pkg, freeGot[fn]))
+			}
+		}
+		return res
+	}
+}
+
+// ---- Python trees through CommonAnalysis and through the python analysis driver (pydeps.json) ----------------
+
+type c20pFile struct {
+	Path    string
+	Classes []c20dType // Kind unused; Methods = method names
+	Free    []string   // module-level functions with a capitalised name (listed as nodes of their own)
+	Lower   []string   // other module-level functions
+}
+
+func (f c20pFile) source() string {
+	var sb strings.Builder
+	sb.WriteString("import os\n\n")
+	for _, cl := range f.Classes {
+		sb.WriteString("class " + cl.Name + ":\n")
+		if len(cl.Methods) == 0 {
+			sb.WriteString("    pass\n")
+		}
+		for _, m := range cl.Methods {
+			sb.WriteString("    def " + m + "(self):\n        return 1\n\n")
+		}
+		sb.WriteString("\n")
+	}
+	for _, fn := range append(append([]string{}, f.Free...), f.Lower...) {
+		sb.WriteString("def " + fn + "():\n    return 2\n\n")
+	}
+	return sb.String()
+}
+
+func c20PyDirGen(c *engine.C) engine.Case {
+	a := c20pFile{Path: "app/a.py", Classes: []c20dType{{Name: "Foo", Methods: []string{"run", "stop"}}}}
+	b := c20pFile{Path: "app/b.py"}
+	switch engine.PickTag(c, "layout", "one-directory", "two-directories", "nested") {
+	case "two-directories":
+		b.Path = "lib/b.py"
+	case "nested":
+		b.Path = "app/inner/b.py"
+	}
+	if c.Bool("a-declares-a-capitalised-function") {
+		a.Free = []string{"Build"}
+	}
+	if c.Bool("a-declares-a-lower-case-function") {
+		a.Lower = []string{"helper"}
+	}
+	switch engine.Pick(c, "b-class", "other-class", "like-named-class", "no-class", "two-classes") {
+	case "other-class":
+		b.Classes = []c20dType{{Name: "Bar", Methods: []string{"go"}}}
+	case "like-named-class":
+		b.Classes = []c20dType{{Name: "Foo", Methods: []string{"other"}}}
+	case "two-classes":
+		b.Classes = []c20dType{{Name: "Bar", Methods: []string{"go"}}, {Name: "Baz"}}
+	}
+	if c.Bool("b-declares-a-capitalised-function") {
+		b.Free = []string{"Make"}
+	}
+	files := []c20pFile{a, b}
+	if c.Bool("a-non-python-file-lies-between") {
+		files = append(files, c20pFile{Path: "app/aa.go.txt"})
+	}
+	driver := c.Bool("through-the-python-analysis-driver")
+	if driver {
+		c.Tag("cli")
+	}
+	return func() engine.Result {
+		var specs []FileSpec
+		for _, f := range files {
+			content := f.source()
+			if !strings.HasSuffix(f.Path, ".py") {
+				content = "not a python module\n"
+			}
+			specs = append(specs, FileSpec{Path: f.Path, Content: content})
+		}
+		res := engine.Result{InputKey: filesKey(specs) + fmt.Sprint(driver), Input: map[string]interface{}{"files": filesInput(specs), "through_driver": driver}, Nontrivial: true}
+		root, cleanup := materialise(specs)
+		defer cleanup()
+		var ds []core_domain.CodeDataStruct
+		if driver {
+			r := runCLIOf("python", root, "analysis", "-p", ".")
+			if r.Exit != 0 {
+				res.Violations = append(res.Violations, engine.V("python-directory", "driver-exit-status", "python analysis -p . exited %d: %s", r.Exit, trimTo(r.Stderr+r.Stdout, 500)))
+				return res
+			}
+			if err := readReport(root, "pydeps.json", &ds); err != nil {
+				res.Violations = append(res.Violations, engine.V("python-directory", "driver-report", "pydeps.json: %v", err))
+				return res
+			}
+		} else {
+			wd, _ := os.Getwd()
+			if err := os.Chdir(root); err != nil {
+				panic(err)
+			}
+			ds = analysis.CommonAnalysis(io.Discard, root, new(pyapp.PythonIdentApp), cocafile.PythonFileFilter, true)
+			os.Chdir(wd)
+		}
+		classNames := map[string]bool{}
+		var want []string
+		freeWant := map[string]bool{}
+		for _, f := range files {
+			for _, cl := range f.Classes {
+				classNames[cl.Name] = true
+				want = append(want, cl.Name+"["+strings.Join(cl.Methods, ",")+"]")
+			}
+			for _, fn := range f.Free {
+				freeWant[fn] = true
+			}
+		}
+		var got, desc []string
+		freeGot := map[string]int{}
+		for _, d := range ds {
+			var ms []string
+			for _, fn := range d.Functions {
+				ms = append(ms, fn.Name)
+			}
+			desc = append(desc, d.NodeName+"["+strings.Join(ms, ",")+"]")
+			if classNames[d.NodeName] {
+				got = append(got, d.NodeName+"["+strings.Join(ms, ",")+"]")
+			} else if freeWant[d.NodeName] {
+				freeGot[d.NodeName]++
+			}
+		}
+		sort.Strings(want)
+		sort.Strings(got)
+		res.Outcome = strings.Join(desc, " ")
+		if strings.Join(want, " ") != strings.Join(got, " ") {
+			res.Violations = append(res.Violations, engine.V("python-directory", "class-entries", "directory analysis lists the classes %v, the modules declare %v (all entries: %v)", got, want, desc))
+		}
+		for fn := range freeWant {
+			if freeGot[fn] != 1 {
+				res.Violations = append(res.Violations, engine.V("python-directory", "function-entries", "capitalised module-level function %s is listed %d times (all entries: %v)", fn, freeGot[fn], desc))
 			}
 		}
 		return res
